@@ -383,3 +383,13 @@ func (p *Program) directCallee(helper, owner string) bool {
 // lastProgram: the program loaded last (rules that must look at every call of a
 // helper from inside a value-level predicate use it).
 var lastProgram *Program
+
+// FuncByNameExact: the repository function printed exactly as name, or nil.
+func (p *Program) FuncByNameExact(name string) *ssa.Function {
+	for _, f := range p.RepoFuncs() {
+		if fnName(f) == name {
+			return f
+		}
+	}
+	return nil
+}
